@@ -76,7 +76,7 @@ def make_case(seed, dm='lua', size=None):
     if seed < 0:
         ch, hist = (C.gen_done_chart, C.gen_hist_chart, C.gen_conflict_chart)[seed % 3](-seed)      # done.state / history / conflict family
     else:
-        ch, hist = C.gen_chart(seed, data=True, errors=False, dataexpr=False, orcond=False)   # the C scaffold's built-in integer datamodel has no 'or'
+        ch, hist = C.gen_chart(seed, data=True, errors=False, dataexpr=False, rich=True)
     if size: pad_chart(ch, rng, size)
     return ch, hist
 
